@@ -84,7 +84,9 @@ Inductive conv :=
 | CvId                                        (* identity, and C-order reshapes (flat layout unchanged) *)
 | CvImgF (r c : nat)                          (* Image2D(order='F'): fun[i,j] = par[j*r+i] *)
 | CvImgC (r c : nat)                          (* Image2D(order='C'), Continuous2D: length check only *)
-| CvStep (nfun : nat) (idx : list (list nat)) (pj : proj).   (* StepExpansion: idx = _indices *)
+| CvStep (nfun : nat) (idx : list (list nat)) (pj : proj) (sq : bool).
+                                              (* StepExpansion: idx = _indices; sq: fun2par ends in an unrestricted
+                                                 squeeze() (today) instead of dropping only the axis of functions *)
 
 Definition natll_eqb := list_eqb natl_eqb.
 Definition conv_eqb (a b : conv) : bool :=
@@ -92,7 +94,7 @@ Definition conv_eqb (a b : conv) : bool :=
   | CvId, CvId => true
   | CvImgF r c, CvImgF r' c' => Nat.eqb r r' && Nat.eqb c c'
   | CvImgC r c, CvImgC r' c' => Nat.eqb r r' && Nat.eqb c c'
-  | CvStep n i p, CvStep n' i' p' => Nat.eqb n n' && natll_eqb i i' && proj_eqb p p'
+  | CvStep n i p s, CvStep n' i' p' s' => Nat.eqb n n' && natll_eqb i i' && proj_eqb p p' && Bool.eqb s s'
   | _, _ => false
   end.
 
@@ -163,6 +165,17 @@ Fixpoint step_owner (idx : list (list nat)) (k i : nat) (acc : option nat) : opt
 Definition step_par2fun (nfun : nat) (idx : list (list nat)) (p : vec) : vec :=
   map (fun k => match step_owner idx k 0 None with Some i => nthq p i | None => 0 end) (seq 0 nfun).
 
+(* StepExpansion as a linear map: the 0/1 matrix S with S[k][i] = 1 iff node k takes parameter i, and the
+   well-formedness of the index family (each index set is the fibre of `step_owner`) *)
+Definition owner_is (idx : list (list nat)) (k i : nat) : bool :=
+  match step_owner idx k 0 None with Some j => Nat.eqb j i | None => false end.
+Definition ind (b : bool) : Qc := if b then 1 else 0.
+Definition step_jac (nfun : nat) (idx : list (list nat)) : mat :=
+  map (fun k => map (fun i => ind (owner_is idx k i)) (seq 0 (length idx))) (seq 0 nfun).
+(* the index sets are exactly the fibres of `owner` (a partition of the nodes that are covered) *)
+Definition step_wf (nfun : nat) (idx : list (list nat)) : bool :=
+  forallb (fun i => natl_eqb (nth i idx []) (filter (fun k => owner_is idx k i) (seq 0 nfun))) (seq 0 (length idx)).
+
 Definition qmax (a b : Qc) : Qc := if Qle_bool (this a) (this b) then b else a.
 Definition qmin (a b : Qc) : Qc := if Qle_bool (this a) (this b) then a else b.
 Definition qsumv (v : vec) : Qc := fold_right Qcplus 0 v.
@@ -186,7 +199,7 @@ Definition conv_par2fun (cv : conv) (in2d : bool) (p : vec) : res vec :=
   | CvId => Ok p
   | CvImgF r c => if Nat.eqb (length p) (r * c) then Ok (if in2d then p else img_par2fun r c p) else Err EValue
   | CvImgC r c => if Nat.eqb (length p) (r * c) then Ok p else Err EValue
-  | CvStep nfun idx _ => if Nat.eqb (length p) (length idx) then Ok (step_par2fun nfun idx p) else Err EValue
+  | CvStep nfun idx _ _ => if Nat.eqb (length p) (length idx) then Ok (step_par2fun nfun idx p) else Err EValue
   end.
 
 (* `flat1d`: the value handed to fun2par is a 1-d array although the geometry's function values are
@@ -197,7 +210,7 @@ Definition conv_fun2par (cv : conv) (flat1d : bool) (f : vec) : res vec :=
   | CvImgF r c => if flat1d then Ok f
                   else if Nat.eqb (length f) (r * c) then Ok (img_fun2par r c f) else Err EValue
   | CvImgC r c => if flat1d then Ok f else if Nat.eqb (length f) (r * c) then Ok f else Err EValue
-  | CvStep nfun idx pj => if Nat.eqb (length f) nfun then step_fun2par idx pj f else Err EValue
+  | CvStep nfun idx pj _ => if Nat.eqb (length f) nfun then step_fun2par idx pj f else Err EValue
   end.
 
 (* the classes whose par2fun/fun2par are the inherited identities, whatever else the record says *)
@@ -223,13 +236,13 @@ Definition g_fun2par (g : geo) (f : vec) : res vec := g_fun2par_gen g false f.
    arithmetic (numpy keeps the ndarray subclass and its attributes) -- or, for StepExpansion, a fresh
    np.zeros array filled by assignment (plain ndarray) *)
 Definition g_keeps (g : geo) : bool :=
-  plain1d (g_cls g) || match g_conv g with CvStep _ _ _ => false | _ => true end.
+  plain1d (g_cls g) || match g_conv g with CvStep _ _ _ _ => false | _ => true end.
 
 (* fun2par ends in .squeeze(): a single-parameter StepExpansion returns a 0-d array *)
 Definition g_f2p_0d (g : geo) : bool :=
   negb (plain1d (g_cls g)) &&
   match g_f2p g, g_conv g with
-  | (F2Base | F2Imap _), CvStep _ idx _ => Nat.eqb (length idx) 1
+  | (F2Base | F2Imap _), CvStep _ idx _ sq => sq && Nat.eqb (length idx) 1
   | _, _ => false
   end.
 
@@ -259,11 +272,15 @@ Record quirks := mkQ {
   q_samples_par : bool;    (* _apply_func treats every Samples column as parameters (flag ignored) *)
   q_typeis : bool;         (* _apply_func decides "input is a CUQIarray" by `type(x) is CUQIarray`: an instance of
                               a SUBCLASS of CUQIarray is converted like one but its output is not re-wrapped *)
+  q_isid : bool;           (* CUQIarray.funvals / .parameters test `is_par is True` / `is_par is False`: an is_par
+                              given as numpy.bool_ or 0/1 is neither, so funvals returns the array unconverted
+                              and parameters returns it unconverted *)
+  q_tagleak : bool;        (* gradient hands wrt.funvals to the user callables WITH its CUQIarray tag *)
   q_eqidx : bool           (* _all_values_equal indexes list attributes of different length (IndexError)
                               and looks up every attribute of the left operand in the right one (KeyError) *)
 }.
-Definition q_today : quirks := mkQ true true true true.
-Definition q_fixed : quirks := mkQ false false false false.
+Definition q_today : quirks := mkQ true true true true true true.
+Definition q_fixed : quirks := mkQ false false false false false false.
 
 Definition opt_qcl_eqb := opt_eqb qcl_eqb.
 Definition fields_eqb (a b : geo) : bool :=
@@ -433,12 +450,19 @@ Definition run_gfun (gf : gfun) (dir2d : bool) (d w : vec) : res (vec * bool * t
 Inductive ginput :=
 | GiVec (v : vec)
 | GiArr (g : geo) (apar : bool) (v : vec)
+| GiArrOdd (g : geo) (truthy : bool) (v : vec)   (* CUQIarray whose is_par is numpy.bool_(truthy) / int(truthy) *)
 | GiSamples.
 
 Definition gi_samples (x : ginput) : bool := match x with GiSamples => true | _ => false end.
-Definition gi_vec (x : ginput) : vec := match x with GiVec v | GiArr _ _ v => v | GiSamples => [] end.
+Definition gi_vec (x : ginput) : vec := match x with GiVec v | GiArr _ _ v | GiArrOdd _ _ v => v | GiSamples => [] end.
 Definition gi_tag (x : ginput) : tag := match x with GiArr g ap _ => Some (g, ap) | _ => None end.
-Definition gi_is_arr (x : ginput) : bool := match x with GiArr _ _ _ => true | _ => false end.
+(* the tag as .parameters sees it (anything but `False` is "parameters") and as .funvals sees it (anything but
+   `True` is "function values") *)
+Definition gi_tag_par (q : quirks) (x : ginput) : tag :=
+  match x with GiArrOdd g t _ => Some (g, if q_isid q then true else t) | _ => gi_tag x end.
+Definition gi_tag_fun (q : quirks) (x : ginput) : tag :=
+  match x with GiArrOdd g t _ => Some (g, if q_isid q then false else t) | _ => gi_tag x end.
+Definition gi_is_arr (x : ginput) : bool := match x with GiArr _ _ _ | GiArrOdd _ _ _ => true | _ => false end.
 
 (* Model.gradient.  A Samples `wrt` is only modelled with is_wrt_par=True (the first conversion
    then leaves it alone and the Samples check refuses it). *)
@@ -446,18 +470,18 @@ Definition gradient (q : quirks) (gf : gfun) (rg dg : geo) (direction wrt : ginp
   : res output :=
   (* wrt_par = self._2par(wrt, domain_geometry, is_par=is_wrt_par); ValueError / NotImplementedError
      are re-raised with the same class *)
-  bind (if gi_samples wrt then Ok (mkP2 [] None false) else two_par q dg (gi_vec wrt) (gi_tag wrt) wpar) (fun wp =>
+  bind (if gi_samples wrt then Ok (mkP2 [] None false) else two_par q dg (gi_vec wrt) (gi_tag_par q wrt) wpar) (fun wp =>
   (* _check_gradient_can_be_computed *)
   match gf with GNone => Err ENotImpl | _ =>
   if gi_samples direction || gi_samples wrt then Err EValue
   else if negb (identity_class (g_cls rg)) then Err ENotImpl
   else if negb (has_grad dg) && negb (identity_class (g_cls dg)) then Err ENotImpl
   else
-    bind (two_fun q dg (gi_vec wrt) (gi_tag wrt) wpar) (fun wf =>
-    bind (two_fun q rg (gi_vec direction) (gi_tag direction) dpar) (fun df =>
+    bind (two_fun q dg (gi_vec wrt) (gi_tag_fun q wrt) wpar) (fun wf =>
+    bind (two_fun q rg (gi_vec direction) (gi_tag_fun q direction) dpar) (fun df =>
     bind (run_gfun gf (fun_is_2d rg) (fst df) (fst wf)) (fun gfl =>
     let '(gv, flat, sel) := gfl in
-    let tg := pick sel (snd df) (snd wf) in
+    let tg := pick sel (snd df) (if q_tagleak q then snd wf else None) in
     match g_grad dg with
     | Some gg =>                                             (* grad_is_par = True *)
         rmap (wrap_out (gi_is_arr direction) dg)
